@@ -322,10 +322,10 @@ impl Prop for Finds {
     }
     fn streams(&self) -> Vec<Stream> {
         match self.0 {
-            Which::Prefix => vec![Stream::new("gen", 6400, 64000), Stream::new("vocab", 7, 7), Stream::new("corpus", 640, 3285 * 2)],
-            Which::Typo => vec![Stream::new("gen", 2400, 24000), Stream::new("vocab", 7, 7), Stream::new("corpus", 480, 3285 * 2)],
-            Which::Whole => vec![Stream::new("gen", 12800, 128000), Stream::new("vocab", 7, 7), Stream::new("corpus", 1600, 3285 * 2)],
-            Which::SplitJoin => vec![Stream::new("gen", 6400, 64000), Stream::new("vocab", 7, 7), Stream::new("corpus", 960, 3285 * 2)],
+            Which::Prefix => vec![Stream::new("gen", 6400, 320000), Stream::new("vocab", 7, 7), Stream::new("corpus", 640, 3285 * 2)],
+            Which::Typo => vec![Stream::new("gen", 2400, 48000), Stream::new("vocab", 7, 7), Stream::new("corpus", 480, 3285 * 2)],
+            Which::Whole => vec![Stream::new("gen", 12800, 640000), Stream::new("vocab", 7, 7), Stream::new("corpus", 1600, 3285 * 2)],
+            Which::SplitJoin => vec![Stream::new("gen", 6400, 192000), Stream::new("vocab", 7, 7), Stream::new("corpus", 960, 3285 * 2)],
         }
     }
     fn floors(&self) -> Vec<(&'static str, u64, u64)> {
